@@ -874,7 +874,8 @@ pub fn rows_c17(args: &[String]) -> i32 {
     let mut out = Out::new(&arg_value(args, "--out").unwrap_or("-".into()));
     let kws: Vec<&[u8]> = vec![b"MAX", b"MAXimum", b"max", b"maximum", b"MaXiMuM", b"MIN", b"MINimum", b"min", b"minimum", b"DEF", b"DEFault", b"def", b"default",
                                b"UP", b"up", b"Up", b"DOWN", b"down", b"MAXI", b"MAXIMU", b"MAXIMUMM", b"MA", b"MINI", b"DEFA", b"DEFAUL", b"DE", b"U", b"UPP", b"DOW", b"DOWNN",
-                               b"MAX1", b"DEFault1", b"UP1", b"ABC", b"ON"];
+                               b"MAX1", b"DEFault1", b"UP1", b"ABC", b"ON",
+                               b"'MAX'", b"\"def\"", b"'UP'", b"\"MINimum\"", b"#13MAX", b"(MAX)", b"(DEF)"];
     let ints: Vec<&[u8]> = vec![b"0", b"1", b"-1", b"9", b"10", b"11", b"-10", b"-11", b"100", b"101", b"-100", b"-101", b"99", b"5", b"5.4", b"5.6", b"10.4", b"10.6",
                                 b"255", b"256", b"-129", b"#HA", b"#H65", b"1 V", b"'5'", b"(5)", b"#11A", b"1e3", b"32767", b"-32768", b"32768",
                                 b"9223372036854775807", b"-9223372036854775808"];
